@@ -912,3 +912,206 @@ func c09CrewKeepsOnlyReportedState(c *Ctx, rule string) {
 		c.R.Discharge(rule, "RunMachine: the crew keeps only what it reports", c.P.Pos(rm.Pos()), fmt.Sprintf("%d writes into the crew, all to the machines' states, the change records or the timers", total))
 	}
 }
+
+// c19EveryLineMatched: C19-R9.  "No forbidden pattern was matched" is only as good as the set of lines that were
+// compared: in the loop that reads the subprocess's output every line that was read and decoded reaches the loop over
+// the step's outputs.  A way back to the head of the read loop that by-passes the matching is allowed only under a
+// failed read or a failed decode (an `err != nil` edge).
+func c19EveryLineMatched(c *Ctx, rule string, run *ssa.Function) {
+	var fns []*ssa.Function
+	seen := map[*ssa.Function]bool{}
+	for _, f := range append(ssau.WithAnon(run), pkgClosure(run)...) {
+		if prog.PkgOf(f) == "tools/expect" && f.Blocks != nil && !seen[f] {
+			seen[f] = true
+			fns = append(fns, f)
+			for _, g := range ssau.WithAnon(f) {
+				if !seen[g] {
+					seen[g] = true
+					fns = append(fns, g)
+				}
+			}
+		}
+	}
+	n := 0
+	for _, f := range fns {
+		loops := flow.Loops(f)
+		ssau.Instrs(f, func(in ssa.Instruction) {
+			cl, ok := in.(*ssa.Call)
+			if !ok {
+				return
+			}
+			name := ssau.CalleeName(cl)
+			if !(strings.HasPrefix(name, "(*bufio.Reader).Read") || name == "(*bufio.Scanner).Scan") {
+				return
+			}
+			L := flow.InnermostLoop(loops, cl.Block())
+			if L == nil {
+				return
+			}
+			// the matching: a loop nested in L (or a call made in L) that ranges over an OutputSet
+			matching := map[*ssa.BasicBlock]bool{}
+			isOutputs := func(v ssa.Value) bool {
+				for _, d := range resolveThroughLocals(v, fns) {
+					if ld, isLd := d.(*ssa.UnOp); isLd {
+						if _, fld, _, isF := ssau.FieldOf(ld.X); isF && fld == "OutputSet" {
+							return true
+						}
+					}
+				}
+				return false
+			}
+			for _, m := range loops {
+				if m == L || !L.Blocks[m.Header] {
+					continue
+				}
+				if op := loopOperand(m); op != nil && isOutputs(op) {
+					matching[m.Header] = true
+				}
+			}
+			for b := range L.Blocks {
+				for _, in2 := range b.Instrs {
+					c2, isC := in2.(*ssa.Call)
+					if !isC {
+						continue
+					}
+					h := c2.Common().StaticCallee()
+					if h == nil || h.Blocks == nil || prog.PkgOf(h) != "tools/expect" {
+						continue
+					}
+					for _, m := range flow.Loops(h) {
+						if op := loopOperand(m); op != nil && isOutputs(op) {
+							matching[b] = true
+						}
+					}
+				}
+			}
+			if len(matching) == 0 {
+				return
+			}
+			n++
+			var bad []string
+			for _, latch := range L.Latch {
+				if matching[latch] || !flow.Reachable(cl.Block(), latch, matching) {
+					continue
+				}
+				// by-passes the matching: only after a failed read or decode
+				excused := false
+				for _, ft := range flow.Expand(append(flow.FactsAt(latch), flow.EdgeFacts(latch, L.Header)...)) {
+					if bo, isB := ft.Cond.(*ssa.BinOp); isB && ssau.IsNilConst(bo.Y) && bo.X.Type().String() == "error" && ((bo.Op.String() == "!=" && ft.True) || (bo.Op.String() == "==" && !ft.True)) {
+						excused = true
+					}
+				}
+				if !excused {
+					bad = append(bad, c.pos(latch.Instrs[len(latch.Instrs)-1]))
+				}
+			}
+			c.R.Check(len(bad) == 0, rule, fmt.Sprintf("%s: every line read #%d is compared with the step's outputs", fname(f), n), c.pos(cl), "the only ways round the matching are failed reads and failed decodes", "a line that was read goes back to the head of the read loop without having been compared with the step's patterns (at "+strings.Join(bad, ", ")+"): a forbidden message among such lines is never noticed and the session passes")
+		})
+	}
+	if n == 0 {
+		c.R.Break(rule + ": no loop that reads the subprocess's output and matches it against the step's outputs found")
+	}
+}
+
+// c14BroadcastDecision: C14-R1.  A message is broadcast because it names no recipients at all (no "to", or "*"), never
+// because the list it names turned out to be empty: no call of the broadcast list (allMachines) on the routing path is
+// decided by the length of anything.
+// c17DueTimeKeepsItsFraction: C17-R3.  A persisted due time is written with its fraction of a second: a due time
+// formatted with a layout that has no fractional seconds comes back up to a second early after a restart.
+func c14BroadcastDecision(c *Ctx, rule string) {
+	all := c.P.Func("sio", "Crew", "allMachines")
+	to := c.P.Func("sio", "Crew", "toMachines")
+	if all == nil || to == nil {
+		c.R.Break(rule + ": sio allMachines / toMachines not found")
+		return
+	}
+	n := 0
+	for _, f := range append([]*ssa.Function{to}, pkgClosure(to)...) {
+		if prog.PkgOf(f) != "sio" {
+			continue
+		}
+		ssau.Instrs(f, func(in ssa.Instruction) {
+			cl, ok := in.(*ssa.Call)
+			if !ok || cl.Common().StaticCallee() != all {
+				return
+			}
+			n++
+			bad := ""
+			var lens func(v ssa.Value, depth int) bool
+			lens = func(v ssa.Value, depth int) bool {
+				if depth > 4 {
+					return false
+				}
+				switch x := v.(type) {
+				case *ssa.BinOp:
+					return lens(x.X, depth+1) || lens(x.Y, depth+1)
+				case *ssa.UnOp:
+					return lens(x.X, depth+1)
+				case *ssa.Call:
+					if bi, isB := x.Common().Value.(*ssa.Builtin); isB && bi.Name() == "len" {
+						return true
+					}
+				}
+				return false
+			}
+			edges := [][]flow.Fact{flow.FactsAt(cl.Block())}
+			for _, p := range cl.Block().Preds {
+				edges = append(edges, append(append([]flow.Fact{}, flow.FactsAt(p)...), flow.EdgeFacts(p, cl.Block())...))
+			}
+			for _, fs := range edges {
+				for _, ft := range flow.Expand(fs) {
+					if lens(ft.Cond, 0) {
+						bad = c.pos(ft.If)
+					}
+				}
+			}
+			c.R.Check(bad == "", rule, fmt.Sprintf("%s: broadcast #%d is not decided by an empty list of recipients", fname(f), n), c.pos(cl), "no length test on the way to allMachines", "whether a message is broadcast depends on a length ("+bad+"): a message addressed to an empty list of recipients (nobody) is shown to every machine")
+		})
+	}
+	if n == 0 {
+		c.R.Break(rule + ": toMachines never calls allMachines")
+	}
+}
+
+func c17DueTimeKeepsItsFraction(c *Ctx, rule string) {
+	n := 0
+	bad := ""
+	for _, f := range c.P.FuncsIn("sio", "cmd/mcrew") {
+		for _, g := range ssau.WithAnon(f) {
+			ssau.Instrs(g, func(in ssa.Instruction) {
+				cl, ok := in.(*ssa.Call)
+				if !ok {
+					return
+				}
+				name := ssau.CalleeName(cl)
+				if name != "(time.Time).Format" && name != "(time.Time).AppendFormat" {
+					return
+				}
+				// the receiver derives from a timer entry's due time
+				isAt := false
+				for _, d := range deepDefs(cl.Common().Args[0], []*ssa.Function{g}) {
+					v := d
+					for k := 0; k < 4; k++ {
+						if c2, isC := v.(*ssa.Call); isC && len(c2.Common().Args) > 0 && strings.HasPrefix(ssau.CalleeName(c2), "(time.Time).") {
+							v = c2.Common().Args[0]
+						}
+					}
+					if ld, isLd := v.(*ssa.UnOp); isLd {
+						if nm, fld, _, isF := ssau.FieldOf(ld.X); isF && nm != nil && nm.Obj().Name() == "TimerEntry" && fld == "At" {
+							isAt = true
+						}
+					}
+				}
+				if !isAt {
+					return
+				}
+				n++
+				layout := cl.Common().Args[len(cl.Common().Args)-1]
+				if s, isS := ssau.ConstString(layout); isS && !strings.Contains(s, ".9") && !strings.Contains(s, ".0") && !strings.Contains(s, ",9") && !strings.Contains(s, ",0") {
+					bad = fmt.Sprintf("%q at %s", s, c.pos(cl))
+				}
+			})
+		}
+	}
+	c.R.Check(bad == "", rule, "timers: a due time is never written without its fraction of a second", "sio/timers.go", fmt.Sprintf("%d explicit formattings of TimerEntry.At, none with a layout that drops the fraction (the default JSON form of time.Time keeps nanoseconds)", n), "a timer entry's due time is formatted with the layout "+bad+", which has no fractional seconds: the time read back after a restart is up to a second earlier, and the resumed timer fires early")
+}
